@@ -99,6 +99,44 @@ Theorem C10_census_parts :
 Proof. exact (conj census_vars_only_initialised (conj census_lf_reads_no_locked_field (conj census_holders census_lk_writes_to_fresh))). Qed.
 Print Assumptions C10_census_parts.
 
+(* THE CODEC WALK UNDER CONCURRENCY as a census obligation (computed, within the census limits): pick
+   any write, anywhere in the analysed packages, to a field that a function on the lock-free part of a
+   codec call reads.  Its function is not on the lock-free part; and if it runs inside Schema, the
+   object it writes to was created in the critical section in progress (not handed to anybody yet) —
+   or the field is RefSchema.To, written by one of the four functions of the token tables on the
+   placeholder it registered.  With walk_ok (no package-level variable assigned after initialisation,
+   no stored function value called, no goroutine started, no per-call type reachable from a long-lived
+   object, only allow-listed foreign packages): what a walk reads is frozen while it can be read. *)
+Theorem C10_codec_walk_reads_frozen : forall w,
+  In w ConcStateGen.state_writes -> is_field_target (w_target w) = true ->
+  In (strip_field (w_target w)) ConcStateGen.lf_read_fields ->
+  ~ In (w_fn w) ConcStateGen.lockfree_fns /\
+  (In (w_fn w) ConcStateGen.locked_fns ->
+   exists o, In (w_fn w, strip_field (w_target w), o) ConcStateGen.lk_field_writes /\
+             lk_entry_ok (w_fn w, strip_field (w_target w), o) = true).
+Proof. exact walk_reads_are_frozen. Qed.
+Print Assumptions C10_codec_walk_reads_frozen.
+
+Theorem C10_codec_walk_census : walk_ok = true.
+Proof. exact census_walk. Qed.
+Print Assumptions C10_codec_walk_census.
+
+(* non-vacuous (buildSchemaProperty writes ObjectProperty.Schema, which the walk reads, on a fresh
+   object), and discriminating *)
+Example C10_codec_walk_example :
+  In ("j5schema.Package.buildSchemaProperty", "field:j5schema.ObjectProperty.Schema", "set")%string ConcStateGen.state_writes /\
+  In "j5schema.ObjectProperty.Schema"%string ConcStateGen.lf_read_fields /\
+  In "j5schema.Package.buildSchemaProperty"%string ConcStateGen.locked_fns /\
+  walk_reads_frozen ConcStateGen.lockfree_fns ConcStateGen.locked_fns ConcStateGen.lf_read_fields
+                    (unclassified_write :: ConcStateGen.state_writes) ConcStateGen.lk_field_writes = false /\
+  walk_reads_frozen ConcStateGen.lockfree_fns ConcStateGen.locked_fns ConcStateGen.lf_read_fields
+                    (walk_memo_write :: ConcStateGen.state_writes) ConcStateGen.lk_field_writes = false.
+Proof.
+  split; [|split; [|split; [|exact walk_rejects_regressions]]];
+    apply in_strs_In || idtac; try (vm_compute; reflexivity).
+  vm_compute. tauto.
+Qed.
+
 (* the checks discriminate: a memo map in the Reflector filled by NewRoot (directly or through
    a local alias), a package-level cache filled inside Schema, a new mutable field on a
    long-lived object, a per-call type becoming reachable from one, a locked function that
